@@ -2,20 +2,24 @@
    Statements only.  Models: Model/AcmdEncoder.v (acu_utils.ModeCommand, ParameterCommand,
    ProgramTrackCommand, Command.get), Model/AcmdFrame.v (System.parse, _parse_commands). *)
 From DS Require Import Base.Prelude Base.Bits Gen.AcmdTables Model.AcmdFrame.
-From DS Require Import Model.AcmdEncoder Proofs.AcmdFrameProofs Proofs.AcmdEncoderProofs.
+From DS Require Import Model.AcmdEncoder Model.AcmdTrackWire Proofs.AcmdFrameProofs.
+From DS Require Import Proofs.AcmdEncoderProofs.
 
-(* Frames of mode and parameter commands (ModeCommand to AZ/EL, ParameterCommand to AZ/EL/PS, any
-   16-bit mode / parameter id, any two doubles given by their bit patterns, distinct subsystems,
-   message counter > 0 with counter + number of commands < 2^32 and different from the previous
-   message's): the encoder produces a frame; an idle parser answers True to every byte, starts
-   nothing before the last byte and then exactly one command per encoder object, in order, on the
-   addressed subsystem and handler; the command string handed to the handler decodes ([dec26]:
-   command id, subsystem, counter, mode / parameter id, two doubles as bit patterns) to the
-   encoder's arguments with counter + 1 + i, the doubles bit for bit up to ModeCommand's
-   replacement of a falsy parameter by 0.0 ([norm_param]); the parser is idle afterwards and
-   remembers the counter. *)
-Theorem C10_acu_mode_and_parameter_frames_partial : forall st counter cmds,
-  Forall dom26 cmds -> NoDup (map esub cmds) ->
+(* Every frame the shipped encoders build from in-domain arguments ([in_domain]: ModeCommand to
+   AZ/EL, ParameterCommand to AZ/EL/PS, ProgramTrackCommand to PS with 1..50 points and INT32
+   relative times; any 16-bit mode / parameter / interpolation / tracking / load ids, any doubles
+   given by their bit patterns), distinct subsystems, message counter > 0 with counter + number
+   of commands < 2^32 and different from the previous message's: the encoder produces a frame; an
+   idle parser answers True to every byte, starts nothing before the last byte and then exactly
+   one command per encoder object, in order, on the addressed subsystem and handler; the command
+   string handed to the handler decodes ([decodes]: for mode / parameter commands the six fields
+   [dec26]; for a program-track command the slices PointingStatus takes, [dec_track]: counter,
+   parameter id, interpolation, tracking and load modes, number of points, start time and the two
+   rates, and every (relative time, azimuth, elevation) point) to the encoder's arguments with
+   counter + 1 + i, the doubles bit for bit up to ModeCommand's replacement of a falsy parameter
+   by 0.0 ([norm_param]); the parser is idle afterwards and remembers the counter. *)
+Theorem C10_acu_encoded_frames_are_consumed : forall st counter cmds,
+  Forall in_domain cmds -> NoDup (map esub cmds) ->
   0 < counter -> counter + Z.of_nat (length cmds) < 2 ^ 32 ->
   fidle st -> Some counter <> f_cnt st ->
   exists m bodies,
@@ -24,16 +28,26 @@ Theorem C10_acu_mode_and_parameter_frames_partial : forall st counter cmds,
                  repeat (OTrue, None) (length m - 1) ++
                  [(OTrue, Some (map (fun p : ecmd * list Z => (esub (fst p), ecid (fst p), snd p))
                                     (combine cmds bodies)))]) /\
-    Forall2 (fun c b => exists i, dec26 b = want26 (counter + 1 + Z.of_nat i) c /\ (i < length cmds)%nat)
+    Forall2 (fun c b => exists i, decodes (counter + 1 + Z.of_nat i) c b /\ (i < length cmds)%nat)
             cmds bodies.
-Proof. exact encoded_frame_consumed. Qed.
-Print Assumptions C10_acu_mode_and_parameter_frames_partial.
-(* Partial: the full statement also ranges over ProgramTrackCommand with 1..50 points
-   ([in_domain] in Proofs/AcmdEncoderProofs.v states that domain).  Proved for it so far: the
-   frame-level half below (any list of well-formed command strings is framed by Command.get into
-   a well-formed message) and the length of the point sequence; the command-level half (the
-   42 + 20n bytes of a program-track command decode to its arguments) is covered by the
-   correspondence suites c10_acu_encoder / c10_acu_parse and by the oracle only. *)
+Proof. exact encoded_frame_consumed_all. Qed.
+Print Assumptions C10_acu_encoded_frames_are_consumed.
+(* Scope of the decoder side: [dec_track] (Model/AcmdTrackWire.v) is the field slicing of
+   PointingStatus._program_track_parameter_command; whether the decoded command is then *accepted*
+   (answer 1) and stored is C17's model (Model/AtrkModel.v [load]) and is tied to the real
+   PointingStatus by the correspondence suite c10_acu_track and by the oracle (table, start time
+   and rates compared bit for bit with the encoder arguments) on every run. *)
+
+(* one program-track command: 42 + 20n bytes, a well-formed command for subsystem 5 / handler 4,
+   every slice gives back its argument *)
+Theorem C10_acu_track_command_decodes : forall next pid interp track load t0 raz rel entries,
+  in_domain (ETrack 5 pid interp track load t0 raz rel entries) -> 0 <= next < 2 ^ 32 ->
+  exists b, enc_cmd next (ETrack 5 pid interp track load t0 raz rel entries) = Some b /\
+    length b = (42 + 20 * length entries)%nat /\
+    dec_track b = mkTF next pid interp track load (Z.of_nat (length entries)) t0 raz rel entries /\
+    wf_cmd b /\ csub b = 5 /\ get_method b = Some (5, 4, b).
+Proof. exact enc_track_decodes. Qed.
+Print Assumptions C10_acu_track_command_decodes.
 
 (* Command.get: whatever well-formed command strings it is given (including program-track
    commands), the frame it builds is a well-formed message carrying exactly those commands *)
@@ -54,11 +68,11 @@ Print Assumptions C10_acu_track_points_length.
 (* non-vacuity: Command(ModeCommand(1, 3, 179.25, 0.5), ParameterCommand(5, 60, 1.5)) with
    counter 1000 is in the domain; a 50-point program track frame is encoded and consumed *)
 Example C10_acu_ex_domain :
-  Forall dom26 [EMode 1 3 4640406516143521792 4602678819172646912; EParam 5 60 4609434218613702656 0] /\
+  Forall in_domain [EMode 1 3 4640406516143521792 4602678819172646912; EParam 5 60 4609434218613702656 0] /\
   NoDup (map esub [EMode 1 3 4640406516143521792 4602678819172646912; EParam 5 60 4609434218613702656 0]).
 Proof.
   split.
-  - constructor; [|constructor; [|constructor]]; (split; [|exact I]); cbn [in_domain];
+  - constructor; [|constructor; [|constructor]]; cbn [in_domain];
       unfold u16, bits64; repeat split; lia.
   - cbn. constructor; [cbn; intuition lia|]. constructor; [cbn; intuition|constructor].
 Qed.
